@@ -157,3 +157,25 @@ Theorem C17_source_events :
   /\ Gen_attr.gen_target_default_module_path = true.
 Proof. exact source_events. Qed.
 Print Assumptions C17_source_events.
+
+(** Which parameters are recorded as `Value` (typed record_u64 / record_str / ..) rather than with `Debug`: the source's
+    RecordType::parse_from_ty looks at the LAST segment of a path type (through references; everything else is Debug) and
+    param_names' arms are those of [pat_rule] (generated obligation); and under that rule the answer depends on nothing
+    but the last segment: `std::string::String`, `::std::string::String`, `&std::string::String`, `Wrapping<u32>` and
+    `std::num::Wrapping<u32>` are recorded like their bare spellings.  The corpus terms compute [p_rtype] with [rtype_of]
+    from the type as written and the table the translator read (Gen_attr.gen_types_for_value). *)
+Theorem C17_source_record_type :
+  Gen_attr.gen_path_last_segment = true
+  /\ Gen_attr.gen_ref_recurses = true
+  /\ Gen_attr.gen_other_types_debug = true
+  /\ (forall k, Gen_attr.gen_pat_rule k = Some (pat_rule k)).
+Proof. exact source_record_type. Qed.
+Print Assumptions C17_source_record_type.
+
+Theorem C17_record_type_last_segment : forall table refs lead pre last gens refs' lead' pre' gens' k,
+  rtype_of table (TyPath refs lead (pre ++ (last :: nil)) gens) k
+  = rtype_of table (TyPath refs' lead' (pre' ++ (last :: nil)) gens') k
+  /\ (pat_rule k = PRKeep ->
+      rtype_of table (TyPath refs lead (pre ++ (last :: nil)) gens) k = (if in_table table last then RValue else RDebug)).
+Proof. intros. split; [apply rtype_spelling_irrelevant | apply rtype_last_segment]. Qed.
+Print Assumptions C17_record_type_last_segment.
